@@ -15,6 +15,7 @@ import CaddyModel.C09.FuelDynLemmas
 import CaddyModel.C09.StreamLemmas
 import CaddyModel.C09.Concrete
 import CaddyModel.C09.Witness
+import CaddyModel.C09.ActiveProps
 import CaddyModel.Gen.ProxyCount
 
 namespace CaddyModel.C09
@@ -749,6 +750,15 @@ theorem streams_closed_on_unload_reachable {d : DState} {c : CfgId} {s : State} 
     what the code does; `host_preserved_across_reload` needs a holder throughout) -/
 example : ((runSteps dinit [.load [0] pA [], .newReq true, .load [1] pA [], .load [0] pA []]).map fun d =>
     (d.s.inflight 0, poolObj d.s 0, d.s.inflight 2, sendingCount d.s 0)) = some (1, some 2, 0, 1) := by decide
+
+/-- wave h — a handler that expects status 404 of its health endpoint: the first round (at
+    Provision, the endpoint answers 200) marks the upstream down, a round after the endpoint was
+    scripted to answer 404 brings it back; the step `probe` is an ordinary schedule step
+    (`sched_reachable` covers it) -/
+example : ((runSteps dinit [.load [0] { pA with aOn := true, aExpect := 404 } []]).map fun d => isDown d.s 0 0) = some true := by decide
+example : ((runSteps dinit [.load [0] { pA with aOn := true, aExpect := 404 } [],
+    .probe 0 { status := 404, body := upLit, needsHdr := false }, .round]).map fun d => (isDown d.s 0 0, d.s.fails 0)) =
+    some (false, 0) := by decide
 
 /-- …including the final quiescent state -/
 theorem quiesce_state_reachable {d : DState} (h : Reachable d.s) : Reachable (quiesce d) := quiesce_reachable h
